@@ -181,6 +181,8 @@ type kvBox[K comparable, V comparable] struct {
 	// rank mode: ranks fixed by Prepare for the key-creating events (ins / delAbsent) of the path
 	prepared []int64
 	events   int
+	// the key of the last Remove (checked by the observers of the same transition: it must be gone)
+	lastRemoved *K
 }
 
 // comparators given to the container count their calls (only when the system asks for
@@ -1051,6 +1053,8 @@ func (b *kvBox[K, V]) Do(o Op) *Viol {
 			return vv
 		}
 		b.refRemove(k)
+		kk := k
+		b.lastRemoved = &kk
 	case "removeAbsent":
 		before := b.Key()
 		b.calls = 0
@@ -1099,6 +1103,14 @@ func (b *kvBox[K, V]) content() *Viol {
 	}
 	if got := b.a.size(); got != len(b.ref) {
 		return viol(tag(mp, "C01", "C15", enumProp), "mismatch", "Size() = %d, reference has %d live keys", got, len(b.ref))
+	}
+	if lr := b.lastRemoved; lr != nil {
+		b.lastRemoved = nil
+		if b.find(*lr) < 0 {
+			if v, ok := b.a.get(*lr); ok {
+				return viol(tag(mp, "C01"), "mismatch", "Get(%v) = (%v, true) right after Remove(%v)", *lr, v, *lr)
+			}
+		}
 	}
 	keys, vals := b.a.keys(), b.a.values()
 	if len(keys) != len(b.ref) || len(vals) != len(b.ref) {
